@@ -80,6 +80,7 @@ theorem member_step {st : State} (h : Inv st) (op : Op) (s g a : Nat) :
   | demonitor g0 b => simp only [step, specMember, member, demonitor_membersOf]
   | demonitorScope s0 b => simp only [step, specMember, member]; rfl
   | newRemote b => simp only [step, specMember, member]; rfl
+  | drain b => simp only [step, specMember, member]
   | exit b =>
     simp only [step, specMember, member, exit_membersOf h]
     by_cases hd : b ∈ st.dead
@@ -142,6 +143,7 @@ theorem dead_mono_step (st : State) (op : Op) {a : Nat} (hd : a ∈ st.dead) : a
   | demonitor g b => exact hd
   | demonitorScope s b => exact hd
   | newRemote b => exact hd
+  | drain b => exact hd
   | exit b =>
     simp only [step]
     by_cases hb : b ∈ st.dead
